@@ -204,6 +204,9 @@ structure Inv (c : Cfg) (w : World) : Prop where
   /-- constants are referenced on the instance -/
   consts : ∀ (t : Nat) (tg : Target) (p : Nat) (d : PDecl), w.tgts[t]? = some tg → c.decl t p = some d → d.constant = true →
     ∃ v, tg.vals[p]? = some (some v)
+  /-- no leftover watcher: a `_sync_refs` watcher of t sits on S.v only on behalf of a live link of t -/
+  exact : ∀ (t s : Nat) (ws : List (Nat × List Nat)) (names : List Nat) (i : Nat), w.watch[s]? = some ws →
+    (t, names) ∈ ws → i ∈ names → ∃ tg q r, w.tgts[t]? = some tg ∧ (q, r) ∈ tg.refs ∧ (s, i) ∈ ldeps c t (q, r)
 
 theorem allDeps_mem {c : Cfg} {t : Nat} {ds : List PDecl} (hds : c.decls[t]? = some ds) {refs : List (Nat × Rhs)} {d : SrcP} :
     d ∈ allDeps ds refs ↔ ∃ kv ∈ refs, d ∈ ldeps c t kv := by
@@ -266,7 +269,11 @@ theorem inv_update_target {c : Cfg} {w : World} {t : Nat} {tg tg' : Target} {wat
     (hL : watch'.length = w.watch.length)
     (hC : keysNodup tg'.refs)
     (hE : ∀ (q : Nat) (r : Rhs) (d : PDecl), (q, r) ∈ tg'.refs → c.decl t q = some d → d.allowRefs = true)
-    (hD : ∀ (q : Nat) (v : Val), tg.vals[q]? = some (some v) → ∃ v', tg'.vals[q]? = some (some v')) :
+    (hD : ∀ (q : Nat) (v : Val), tg.vals[q]? = some (some v) → ∃ v', tg'.vals[q]? = some (some v'))
+    (hX : ∀ (s : Nat) (ws : List (Nat × List Nat)) (names : List Nat) (i : Nat), watch'[s]? = some ws → (t, names) ∈ ws →
+      i ∈ names → ∃ q r, (q, r) ∈ tg'.refs ∧ (s, i) ∈ ldeps c t (q, r))
+    (hX' : ∀ (t' s : Nat) (ws : List (Nat × List Nat)) (names : List Nat), t' ≠ t → watch'[s]? = some ws → (t', names) ∈ ws →
+      ∃ ws0, w.watch[s]? = some ws0 ∧ (t', names) ∈ ws0) :
     Inv c { w with watch := watch', tgts := w.tgts.set t tg' } := by
   have hget := fun t' x => tgts_set_get w.tgts t t' x tg htg
   constructor
@@ -305,6 +312,83 @@ theorem inv_update_target {c : Cfg} {w : World} {t : Nat} {tg tg' : Target} {wat
       obtain ⟨v, hv⟩ := hi.consts _ _ _ _ htg hd' hc
       exact hD q v hv
     · exact hi.consts _ _ _ _ ht hd' hc
+  · intro t' s ws names i hws hm hin
+    by_cases e : t' = t
+    · subst e
+      obtain ⟨q, r, h1, h2⟩ := hX s ws names i hws hm hin
+      exact ⟨tg', q, r, by simp [hget], h1, h2⟩
+    · obtain ⟨ws0, h1, h2⟩ := hX' t' s ws names e hws hm
+      obtain ⟨tg0, q, r, h3, h4, h5⟩ := hi.exact t' s ws0 names i h1 h2 hin
+      exact ⟨tg0, q, r, by simp only [hget]; rw [if_neg (fun e' => e e'.symm)]; exact h3, h4, h5⟩
+
+/-- `_update_ref`: after unwatching everything of t and re-installing the watchers of the new refs
+table, the invariant holds when the new links are tracked -/
+theorem rewatch_inv {c : Cfg} {t : Nat} {w : World} {tg : Target} {ds : List PDecl} {vals' : List (Option Val)}
+    {refs' : List (Nat × Rhs)}
+    (hi : Inv c w) (htg : w.tgts[t]? = some tg) (hds : c.decls[t]? = some ds)
+    (hA : ∀ (q : Nat) (r : Rhs), (q, r) ∈ refs' →
+      ((q, r) ∈ tg.refs ∧ vals'[q]? = tg.vals[q]?) ∨
+      (∀ d v, c.decl t q = some d → resolveRhs c w r d.nestedRefs = some v → d.valid v = true → vals'[q]? = some (some v)))
+    (hC : keysNodup refs')
+    (hE : ∀ (q : Nat) (r : Rhs) (d : PDecl), (q, r) ∈ refs' → c.decl t q = some d → d.allowRefs = true)
+    (hD : ∀ (q : Nat) (v : Val), tg.vals[q]? = some (some v) → ∃ v', vals'[q]? = some (some v')) :
+    Inv c { w with watch := setupRefs c t (allDeps ds refs') (unwatchAll t w.watch),
+                   tgts := w.tgts.set t { tg with vals := vals', refs := refs' } } := by
+  refine inv_update_target (tg' := { tg with vals := vals', refs := refs' }) hi htg hA ?_ ?_
+    (by rw [setupRefs_length, unwatchAll_length]) hC hE hD ?_ ?_
+  · intro q r' s i hm hdep hi' hs
+    have hall : (s, i) ∈ allDeps ds refs' := (allDeps_mem hds).2 ⟨_, hm, hdep⟩
+    rw [setupRefs_length, unwatchAll_length] at hs
+    rw [setupRefs_get, unwatchAll_get]
+    obtain ⟨ws, hws⟩ : ∃ ws, w.watch[s]? = some ws := ⟨w.watch[s], by simp [hs]⟩
+    have hin : i ∈ (List.range c.nsp).filter (fun i => (allDeps ds refs').contains (s, i)) := by
+      simp [List.mem_filter, hi', hall]
+    have hne : ((List.range c.nsp).filter (fun i => (allDeps ds refs').contains (s, i))).isEmpty = false := by
+      cases hx : (List.range c.nsp).filter (fun i => (allDeps ds refs').contains (s, i)) with
+      | nil => rw [hx] at hin; cases hin
+      | cons _ _ => rfl
+    refine ⟨_, _, by simp only [hws, Option.map_some, hne]; rfl, ?_, hin⟩
+    simp
+  · intro t' s ws names hne h1 h2
+    rw [setupRefs_get, unwatchAll_get, h1]
+    simp only [Option.map_some]
+    refine ⟨_, rfl, ?_⟩
+    have : (t', names) ∈ ws.filter (fun x => x.1 != t) := by simp [List.mem_filter, h2, hne]
+    split
+    · exact this
+    · exact List.mem_append_left _ this
+  · intro s ws names i hws hm hin
+    rw [setupRefs_get, unwatchAll_get] at hws
+    cases hws0 : w.watch[s]? with
+    | none => simp [hws0] at hws
+    | some ws0 =>
+      simp only [hws0, Option.map_some, Option.some.injEq] at hws
+      have hmem' : (t, names) = (t, (List.range c.nsp).filter (fun i => (allDeps ds refs').contains (s, i))) := by
+        split at hws
+        · subst hws; simp [List.mem_filter] at hm
+        · subst hws
+          simp only [List.mem_append, List.mem_filter, List.mem_singleton] at hm
+          rcases hm with ⟨_, hne⟩ | e
+          · simp at hne
+          · exact e
+      rw [(Prod.mk.inj hmem').2] at hin
+      simp only [List.mem_filter, List.contains_iff_mem] at hin
+      obtain ⟨kv, hkv, hdep⟩ := (allDeps_mem hds).1 hin.2
+      exact ⟨kv.1, kv.2, hkv, hdep⟩
+  · intro t' s ws names hne hws hm
+    rw [setupRefs_get, unwatchAll_get] at hws
+    cases hws0 : w.watch[s]? with
+    | none => simp [hws0] at hws
+    | some ws0 =>
+      simp only [hws0, Option.map_some, Option.some.injEq] at hws
+      refine ⟨ws0, rfl, ?_⟩
+      split at hws
+      · subst hws; exact (List.mem_filter.1 hm).1
+      · subst hws
+        simp only [List.mem_append, List.mem_filter, List.mem_singleton] at hm
+        rcases hm with ⟨h, _⟩ | e
+        · exact h
+        · exact absurd (Prod.mk.inj e).1 hne
 
 /-- a store at (t, p) followed by the deferred link change keeps the invariant -/
 theorem relink_inv {c : Cfg} {t p : Nat} {d : PDecl} {v0 : Val} {rl : Relink} {w : World} {tg : Target}
@@ -322,6 +406,11 @@ theorem relink_inv {c : Cfg} {t p : Nat} {d : PDecl} {v0 : Val} {rl : Relink} {w
     by_cases e : q = p
     · subst e; exact ⟨v0, hp⟩
     · exact ⟨v, by rw [hq q e]; exact hv⟩
+  obtain ⟨ds, hds⟩ : ∃ ds, c.decls[t]? = some ds := by
+    unfold Cfg.decl at hd
+    cases h : c.decls[t]? with
+    | none => simp [h] at hd
+    | some ds => exact ⟨ds, rfl⟩
   cases rl with
   | keep =>
     simp only at hrl
@@ -332,25 +421,24 @@ theorem relink_inv {c : Cfg} {t p : Nat} {d : PDecl} {v0 : Val} {rl : Relink} {w
       (fun q r s i hm hdep hi' hs => hi.watched _ _ _ _ _ _ htg hm hdep hi' hs)
       (fun t' s ws names _ h1 h2 => ⟨ws, h1, h2⟩) rfl (hi.nodup _ tg htg)
       (fun q r d' hm hd' => hi.allow _ _ _ _ _ htg hm hd') hD
+      (by
+        intro s ws names i hws hm hin
+        obtain ⟨tg0, q, r, h1, h2, h3⟩ := hi.exact t s ws names i hws hm hin
+        rw [htg] at h1; cases h1
+        exact ⟨q, r, h2, h3⟩)
+      (fun t' s ws names _ h1 h2 => ⟨ws, h1, h2⟩)
     simpa using this
   | drop =>
-    simp only [applyRelink, hget, if_true, World.setTgt, List.set_set]
-    have := inv_update_target (tg' := { tg with vals := vals', refs := dictDel tg.refs p }) (watch' := w.watch) hi htg
+    simp only [applyRelink, updateRef, hget, if_true, hds, List.set_set]
+    have := rewatch_inv (vals' := vals') (refs' := dictDel tg.refs p) hi htg hds
       (fun q r hm => Or.inl ⟨(mem_dictDel.1 hm).1, hq q (mem_dictDel.1 hm).2⟩)
-      (fun q r s i hm hdep hi' hs => hi.watched _ _ _ _ _ _ htg (mem_dictDel.1 hm).1 hdep hi' hs)
-      (fun t' s ws names _ h1 h2 => ⟨ws, h1, h2⟩) rfl (keysNodup_dictDel p (hi.nodup _ _ htg))
+      (keysNodup_dictDel p (hi.nodup _ _ htg))
       (fun q r d' hm hd' => hi.allow _ _ _ _ _ htg (mem_dictDel.1 hm).1 hd') hD
     simpa using this
   | link r =>
     simp only at hrl
-    obtain ⟨ds, hds⟩ : ∃ ds, c.decls[t]? = some ds := by
-      unfold Cfg.decl at hd
-      cases h : c.decls[t]? with
-      | none => simp [h] at hd
-      | some ds => exact ⟨ds, rfl⟩
     simp only [applyRelink, updateRef, hget, if_true, hds, List.set_set]
-    have := inv_update_target (tg' := { tg with vals := vals', refs := dictSet tg.refs p r })
-      (watch' := setupRefs c t (allDeps ds (dictSet tg.refs p r)) (unwatchAll t w.watch)) hi htg
+    have := rewatch_inv (vals' := vals') (refs' := dictSet tg.refs p r) hi htg hds
       (by
         intro q r' hm
         rcases mem_dictSet.1 hm with e | ⟨hm', hne⟩
@@ -359,30 +447,7 @@ theorem relink_inv {c : Cfg} {t p : Nat} {d : PDecl} {v0 : Val} {rl : Relink} {w
           rw [hd] at hd'; cases hd'
           rw [hrl.1] at hres; cases hres; exact hp
         · exact Or.inl ⟨hm', hq q hne⟩)
-      (by
-        intro q r' s i hm hdep hi' hs
-        have hall : (s, i) ∈ allDeps ds (dictSet tg.refs p r) := (allDeps_mem hds).2 ⟨_, hm, hdep⟩
-        rw [setupRefs_length, unwatchAll_length] at hs
-        rw [setupRefs_get, unwatchAll_get]
-        obtain ⟨ws, hws⟩ : ∃ ws, w.watch[s]? = some ws := ⟨w.watch[s], by simp [hs]⟩
-        have hin : i ∈ (List.range c.nsp).filter (fun i => (allDeps ds (dictSet tg.refs p r)).contains (s, i)) := by
-          simp [List.mem_filter, hi', hall]
-        have hne : ((List.range c.nsp).filter (fun i => (allDeps ds (dictSet tg.refs p r)).contains (s, i))).isEmpty = false := by
-          cases hx : (List.range c.nsp).filter (fun i => (allDeps ds (dictSet tg.refs p r)).contains (s, i)) with
-          | nil => rw [hx] at hin; cases hin
-          | cons _ _ => rfl
-        refine ⟨_, _, by simp only [hws, Option.map_some, hne]; rfl, ?_, hin⟩
-        simp)
-      (by
-        intro t' s ws names hne h1 h2
-        rw [setupRefs_get, unwatchAll_get, h1]
-        simp only [Option.map_some]
-        refine ⟨_, rfl, ?_⟩
-        have : (t', names) ∈ ws.filter (fun x => x.1 != t) := by simp [List.mem_filter, h2, hne]
-        split
-        · exact this
-        · exact List.mem_append_left _ this)
-      (by rw [setupRefs_length, unwatchAll_length]) (keysNodup_dictSet p r (hi.nodup _ _ htg))
+      (keysNodup_dictSet p r (hi.nodup _ _ htg))
       (by
         intro q r' d' hm hd'
         rcases mem_dictSet.1 hm with e | ⟨hm', _⟩
@@ -496,7 +561,7 @@ theorem update_inv {c : Cfg} {t : Nat} {kvs : List (Nat × Rhs)} {w w' : World} 
 /-- the invariant does not look at the open `update` contexts -/
 theorem inv_stack {c : Cfg} {w : World} (st : List Restorer) (hi : Inv c w) : Inv c { w with stack := st } :=
   ⟨fun t tg p r d v ht hm hd hres hv => hi.tracks t tg p r d v ht hm hd (by rw [← hres]; exact (resolveRhs_congr rfl r _).symm) hv,
-   hi.watched, hi.nodup, hi.allow, hi.consts⟩
+   hi.watched, hi.nodup, hi.allow, hi.consts, hi.exact⟩
 
 theorem setCls_inv {c : Cfg} {t p : Nat} {rhs : Rhs} {w w' : World} {res : Res} {log : List Entry}
     (hi : Inv c w) (h : setCls c t p rhs w = (res, w', log)) : Inv c w' := by
@@ -521,6 +586,12 @@ theorem setCls_inv {c : Cfg} {t p : Nat} {rhs : Rhs} {w w' : World} {res : Res} 
                 (fun q r s i hm hdep hi' hs => hi.watched _ _ _ _ _ _ htg hm hdep hi' hs)
                 (fun t' s ws names _ h1 h2 => ⟨ws, h1, h2⟩) rfl (hi.nodup _ tg htg)
                 (fun q r d' hm hd' => hi.allow _ _ _ _ _ htg hm hd') (fun q v hv => ⟨v, hv⟩)
+                (by
+                  intro s ws names i hws hm hin
+                  obtain ⟨tg0, q, r, h1, h2, h3⟩ := hi.exact t s ws names i hws hm hin
+                  rw [htg] at h1; cases h1
+                  exact ⟨q, r, h2, h3⟩)
+                (fun t' s ws names _ h1 h2 => ⟨ws, h1, h2⟩)
               simpa [World.setTgt] using this
     · simp at h
 
@@ -978,7 +1049,7 @@ theorem srcSet_inv {c : Cfg} {s i : Nat} {v : Int} {w w' : World} {log : List En
     obtain ⟨vals', h1, h2, h3⟩ := htgs t w.tgts[t] (by simp [hlt])
     rw [ht] at h1; cases h1
     exact ⟨w.tgts[t], vals', by simp [hlt], rfl, h2, h3⟩
-  refine ⟨?_, ?_, ?_, ?_, ?_⟩
+  refine ⟨?_, ?_, ?_, ?_, ?_, ?_⟩
   · -- tracks
     intro t tg' p r dcl v0 ht hm hd hres hvalid
     obtain ⟨tg, vals', htg, e, hnondep, _⟩ := back t tg' ht
@@ -1065,6 +1136,11 @@ theorem srcSet_inv {c : Cfg} {s i : Nat} {v : Int} {w w' : World} {log : List En
     subst e
     obtain ⟨v0, hv0⟩ := hi.consts _ _ _ _ htg hd hc
     exact hsome p v0 hv0
+  · intro t s' ws names i' hws hm hin
+    rw [hwatch] at hws
+    obtain ⟨tg, q, r, h1, h2, h3⟩ := hi.exact t s' ws names i' hws hm hin
+    obtain ⟨vals', h4, _, _⟩ := htgs t tg h1
+    exact ⟨_, q, r, h4, h2, h3⟩
 
 /-! ### every operation keeps the invariant -/
 
@@ -1122,13 +1198,16 @@ theorem applyRelink_form {c : Cfg} {t p : Nat} {d : PDecl} {rl : Relink} {w : Wo
         { w with watch := watch', tgts := w.tgts.set t { tg with vals := vals', refs := refs' } } ∧
       (match rl with
         | .keep => refs' = tg.refs ∧ watch' = w.watch
-        | .drop => refs' = dictDel tg.refs p ∧ watch' = w.watch
+        | .drop => refs' = dictDel tg.refs p ∧
+            ∃ ds, c.decls[t]? = some ds ∧ watch' = setupRefs c t (allDeps ds refs') (unwatchAll t w.watch)
         | .link r => refs' = dictSet tg.refs p r ∧
             ∃ ds, c.decls[t]? = some ds ∧ watch' = setupRefs c t (allDeps ds refs') (unwatchAll t w.watch)) := by
   have hget := fun t' x => tgts_set_get w.tgts t t' x tg htg
   cases rl with
   | keep => exact ⟨tg.refs, w.watch, by simp [applyRelink], rfl, rfl⟩
-  | drop => exact ⟨dictDel tg.refs p, w.watch, by simp [applyRelink, hget, World.setTgt, List.set_set], rfl, rfl⟩
+  | drop =>
+    obtain ⟨ds, hds⟩ := decls_of_decl hd
+    exact ⟨dictDel tg.refs p, _, by simp [applyRelink, updateRef, hget, hds, List.set_set], rfl, ds, hds, rfl⟩
   | link r =>
     obtain ⟨ds, hds⟩ := decls_of_decl hd
     exact ⟨dictSet tg.refs p r, _, by simp [applyRelink, updateRef, hget, hds, List.set_set], rfl, ds, hds, rfl⟩
@@ -1359,7 +1438,7 @@ theorem construct_inv {c : Cfg} {dflt : List Val} {kws : List (Nat × Rhs)} {w w
               have : (w.tgts ++ [tg])[t']? = none := by simp; omega
               rw [this] at ht; cases ht
         have hdecl := fun p => decl_of_decls hds p
-        refine ⟨?_, ?_, ?_, ?_, ?_⟩
+        refine ⟨?_, ?_, ?_, ?_, ?_, ?_⟩
         · intro t' tg' p r d v ht hm hd hres hvalid
           have hres' : resolveRhs c w r d.nestedRefs = some v := by
             rw [← hres]; exact (resolveRhs_congr rfl r _).symm
@@ -1416,6 +1495,33 @@ theorem construct_inv {c : Cfg} {dflt : List Val} {kws : List (Nat × Rhs)} {w w
             have hz : p < (ds.zip dflt).length := by simp; omega
             simp only [List.getElem?_map, List.getElem?_eq_getElem hz, List.getElem_zip, hd', Option.map_some, hc,
               Bool.true_or, if_true]
+        · intro t0 s ws names i hws hm hin
+          simp only at hws
+          rw [setupRefs_get] at hws
+          cases hws0 : w.watch[s]? with
+          | none => simp [hws0] at hws
+          | some ws0 =>
+            simp only [hws0, Option.map_some, Option.some.injEq] at hws
+            have hcases : (t0, names) ∈ ws0 ∨
+                (t0, names) = (w.tgts.length, (List.range c.nsp).filter (fun i => (allDeps ds tg.refs).contains (s, i))) := by
+              split at hws
+              · subst hws; exact Or.inl hm
+              · subst hws
+                simp only [List.mem_append, List.mem_singleton] at hm
+                exact hm
+            rcases hcases with h0 | e
+            · obtain ⟨tg0, q, r, h1, h2, h3⟩ := hi.exact t0 s ws0 names i hws0 h0 hin
+              have hlt : t0 < w.tgts.length := by
+                by_cases hlt : t0 < w.tgts.length
+                · exact hlt
+                · exfalso; have : w.tgts[t0]? = none := by simp; omega
+                  rw [this] at h1; cases h1
+              exact ⟨tg0, q, r, by rw [hold t0 hlt]; exact h1, h2, h3⟩
+            · have e1 := (Prod.mk.inj e).1; have e2 := (Prod.mk.inj e).2; subst e1
+              rw [e2] at hin
+              simp only [List.mem_filter, List.contains_iff_mem] at hin
+              obtain ⟨kv, hkv, hdep⟩ := (allDeps_mem hds).1 hin.2
+              exact ⟨tg, kv.1, kv.2, hnew, hkv, hdep⟩
       · rename_i hne _
         simp at h; exact absurd h.1 hne
 
